@@ -155,3 +155,6 @@ def replay(args, meta):
         why = str(e)
         return False, 'fifo-semaphore-' + why.split(':')[0], f'{why}; trace(action,drain,inside,value)={trace}'
     return True, None, 'held'
+
+
+sched.freeze()
